@@ -347,6 +347,9 @@ func (c *Child) Command(line string) (string, error) {
 	}
 }
 
+// Pid is the child's process id.
+func (c *Child) Pid() int { return c.cmd.Process.Pid }
+
 // Alive reports whether the child process is still running.
 func (c *Child) Alive() bool {
 	select {
